@@ -12,7 +12,13 @@ func init() {
 	register("C10", func(r *Rand, p *Plan, t string) { genRef(r, p, t, "C10") })
 	register("C11", func(r *Rand, p *Plan, t string) { genRef(r, p, t, "C11") })
 	register("C12", func(r *Rand, p *Plan, t string) { genRef(r, p, t, "C12") })
-	register("C13", func(r *Rand, p *Plan, t string) { genRef(r, p, t, "C13") })
+	register("C13", func(r *Rand, p *Plan, t string) {
+		if r.Chance(10) {
+			genConcurrentAdmission(r, p, t)
+			return
+		}
+		genRef(r, p, t, "C13")
+	})
 	register("C18", func(r *Rand, p *Plan, t string) { genRef(r, p, t, "C18") })
 	register("C19", func(r *Rand, p *Plan, t string) { genRef(r, p, t, "C19") })
 }
@@ -888,6 +894,72 @@ func genAtomicReload(r *Rand, p *Plan, tier string) {
 	p.Park = []string{"yield:loader.go:updates"}
 	if r.Chance(30) {
 		p.Park = append(p.Park, "yield:loader.go:get")
+	}
+	p.Tape = r.Tape(1500)
+	p.MaxSteps = 1500
+}
+
+// genConcurrentAdmission: many connections are admitted at the same time by freshly
+// built filters and providers (right after start-up and right after a reload), with
+// the scheduler free to park a lookup between any two statements of the filter and
+// provider code. Every lookup must still be decided by one whole configuration.
+func genConcurrentAdmission(r *Rand, p *Plan, tier string) {
+	p.Family = "concurrent-admission"
+	p.Build = "yield"
+	p.Scen.Server = "lookup"
+	p.Scen.Format = PickOf(r, "yaml", "json")
+	nVer := 1 + r.Intn(2)
+	pw := PwPool[r.Intn(len(PwPool))]
+	nets := func(n int) []string {
+		var out []string
+		for _, k := range r.Perm(5)[:n] {
+			out = append(out, fmt.Sprintf("10.%d.0.0/16", 1+k))
+		}
+		return out
+	}
+	for v := 0; v < nVer; v++ {
+		var d model.Doc
+		nsc := 1 + r.Intn(3)
+		for i := 0; i < nsc; i++ {
+			pf := nets(1 + r.Intn(3))
+			if r.Chance(25) {
+				pf = append(pf, "10.0.0.0/8")
+			}
+			d.Secrets = append(d.Secrets, model.SecretCfg{Name: fmt.Sprintf("sc%d", i), Secret: model.KeychainCfg{Group: "g", Key: fmt.Sprintf("K-v%d-s%d-%s", v, i, r.Alnum(8))},
+				Handler: model.HandlerCfg{Type: 1}, Type: 1, Prefixes: pf})
+		}
+		d.Users = []model.UserCfg{{Name: "u", Scopes: []string{"sc0", "sc1", "sc2"}[:nsc], Authenticator: &model.AuthCfg{Type: 1, Options: map[string]string{"hash": pw.Hash}, Password: pw.Pw}}}
+		switch r.Intn(4) {
+		case 0:
+			d.PrefixDeny = nets(2 + r.Intn(3))
+		case 1:
+			d.PrefixAllow = nets(2 + r.Intn(3))
+		case 2:
+			d.PrefixDeny = nets(2 + r.Intn(2))
+			d.PrefixAllow = nets(2 + r.Intn(3))
+		}
+		d.Normalize()
+		p.Scen.Docs = append(p.Scen.Docs, d)
+	}
+	step := 2
+	for v := 1; v < nVer; v++ {
+		step += r.Intn(10)
+		p.Scen.Ctl = append(p.Scen.Ctl, Ctl{Kind: "publish", N: v, NotBefore: step})
+	}
+	n := 3 + r.Intn(up(6))
+	for i := 0; i < n; i++ {
+		nb := 0
+		if r.Chance(40) {
+			nb = r.Intn(step + 6)
+		}
+		p.Scen.Clients = append(p.Scen.Clients, ClientSpec{Addr: fmt.Sprintf("10.%d.2.3:%d", 1+r.Intn(6), 40000+i), NotBefore: nb})
+	}
+	p.Park = []string{"yield:prefix_filter.go", "yield:provider.go"}
+	if r.Chance(30) {
+		p.Park = append(p.Park, "yield:loader.go:get")
+	}
+	if nVer > 1 && r.Chance(50) {
+		p.Park = append(p.Park, "yield:loader.go:updates")
 	}
 	p.Tape = r.Tape(1500)
 	p.MaxSteps = 1500
